@@ -152,6 +152,8 @@ impl OpenPartitionIndex {
         file: &mut File,
         index: &BTreeMap<PartitionId, PartitionIndexRecord<Vec<PartitionSequenceOffset>>>,
     ) -> Result<(Mphf<PartitionId>, u64), PartitionIndexError> {
+        #[cfg(sierradb_verif)]
+        crate::verif::point("index_flush.before", &[1]);
         // Collect all keys from the index
         let keys: Vec<PartitionId> = index.keys().copied().collect();
         let n = keys.len() as u64;
